@@ -428,6 +428,7 @@ func genC02(g *Gen) {
 		w := U64s(ws)
 		g.Do("bitmap.Select32", L(w, Int(i)), key)
 		g.Do("bitmap.Select32R64", L(w, Int(i)), key)
+		c02uSel(g, w, i, key) // the unexported single-result variant on the same case (harness/c02u.go)
 	}
 	selAll := func(ws []uint64, bucket string) {
 		os := c02Ones(ws)
@@ -444,6 +445,9 @@ func genC02(g *Gen) {
 		}
 		g.Do("bitmap.IndexSelect32", L(w), key)
 		g.Do("bitmap.IndexSelect32R64", L(w), key)
+		if len(ws) <= 70 {
+			c02uSentinels(g, ws) // select32single outside [0, n): -1 / 64*len (harness/c02u.go)
+		}
 	}
 
 	// widened ops: rank(select(i)) and select(rank(p))
@@ -616,6 +620,7 @@ func genC02(g *Gen) {
 						seen[i] = true
 						g.Do("bitmap.Select32/rle", L(txt, Int(i)), key)
 						g.Do("bitmap.Select32R64/rle", L(txt, Int(i)), key)
+						c02uRle(g, txt, i, key)
 					}
 				}
 				try(0)
@@ -983,4 +988,7 @@ func genC02(g *Gen) {
 			held(ws, os, g.R.Intn(cnt), "held-index-large")
 		}
 	}
+
+	// (U) the unexported helpers: indexSelectU64 / selectU64Indexed / select8Lookup / select32single (harness/c02u.go)
+	genC02u(g)
 }
